@@ -128,6 +128,10 @@ In-place mutation, nested loops, decision trees (option `mut=True`, third pass; 
   (applied to the self binders, bound if it can panic); `a.saturating_sub(b)` of usize is the truncated `a - b`; `mut_self_value`: a
   `&mut self` method whose effect is spelled by its value; a tail `if` whose branches contain checked subtractions keeps the
   guards inside the branches.
+  Private helpers (option `inline_helpers`, default on with `mut`): a call `Self::h(args)` / `h(args)` of a PRIVATE function of the same
+  file that has no spelling in `fns` is inlined when its body is straight-line (`assert!`, `if c { panic!() }`, immutable `let`s, an
+  optional value): the helper's panics are guards of the calling statement, in the helper's order; `h(x);` of a unit helper is a
+  statement.  Public functions are never inlined (they have their own tie).
   Still outside: `while` / `loop`, `break` / `continue`, `return` of anything but `None` inside a loop, checked `usize`
   subtraction / division inside a loop body or a branch, `match` with bindings or guards, `if let` on other patterns,
   `&mut self` / `&mut` arguments, iterator adaptors not listed above.
@@ -1125,6 +1129,9 @@ class Opts:
         self.adt_ctors = {}           # "Broadcast::Vstack" -> Lean constructor term (applied to the translated arguments)
         self.struct_types = {}        # struct type of a parameter -> [(field, type)]: binders `<param>_<field>`
         self.struct_methods = {}      # method on such a parameter -> list of fields: `m.shape()` = the tuple of these fields
+        self.inline_helpers = True    # (mut) a call `Self::h(args)` / `h(args)` of a PRIVATE function of the same file that is not in `fns`
+                                      # is inlined when its body is straight-line: `assert!` / `if c { panic!() }` / immutable `let`s, then
+                                      # an optional value (the asserts become guards of the calling statement)
         self.mut_self_value = False   # (mut) accept `&mut self` like `&self` for a method whose effect is spelled by its VALUE (e.g. `fit`
                                       # ending in `self.update(&coeffs)` with `self_methods={"update": ("{0}", "vec", False)}`: the new field)
         self.self_methods = {}        # (mut) `self.m(args)` with arguments -> (lean fn, return type, can_panic): applied to the self
@@ -1599,6 +1606,8 @@ class Translator:
         for item in reversed(pre):
             if item[0] == "guard":
                 inner = "%sif %s then\n%s\n%selse %s" % (self.ind(d), item[1], self._indent_more(inner), self.ind(d), self.PANICKED)
+            elif item[0] == "panic_if":
+                inner = "%sif %s then %s\n%selse\n%s" % (self.ind(d), item[1], self.PANICKED, self.ind(d), self._indent_more(inner))
             else:
                 inner = "%smatch %s with\n%s| none => %s\n%s| some %s =>\n%s" % (
                     self.ind(d), item[2], self.ind(d), self.PANICKED, self.ind(d), item[1], self._indent_more(inner))
@@ -1648,6 +1657,9 @@ class Translator:
             inner = "%smatch %s with\n%s| none => %s\n%s| some d =>\n%s" % (
                 self.ind(d), call, self.ind(d), self.PANICKED, self.ind(d), self._indent_more(rest()))
             return self._st_wrap(reads, [], inner, d)
+        if e is not None and e.kind == "call" and self._helper(e) is not None:
+            _v, pre = self.collect(lambda: self.inline_helper(self._helper(e), e, env))
+            return self._st_wrap([], pre, rest(), d)
         if e is not None and e.kind == "method":
             chain, r = [], e
             while r.kind == "method":
@@ -1755,6 +1767,10 @@ class Translator:
             return bool(self.o.mut) and self._loop_can_panic(self._parse_for(node)[2])
         if self.o.mut and node.kind == "call" and ("::".join(node.path) in self.o.opt_fns or node.path[-1] in self.o.opt_fns):
             return True
+        if self.o.mut and node.kind == "call" and self._helper(node) is not None:
+            hb = Parser(self.src, *self._helper(node).body).block_body()
+            if self._can_panic(hb):
+                return True
         if self.o.mut and node.kind == "method" and node.recv.kind == "var" and node.recv.name == "self" \
                 and node.name in self.o.self_methods and self.o.self_methods[node.name][2]:
             return True
@@ -1887,6 +1903,8 @@ class Translator:
         for item in reversed(pre):
             if item[0] == "guard":
                 inner = "%sif %s then\n%s\n%selse none" % (self.ind(d), item[1], self._indent_more(inner), self.ind(d))
+            elif item[0] == "panic_if":
+                inner = "%sif %s then\n%s  none\n%selse\n%s" % (self.ind(d), item[1], self.ind(d), self.ind(d), self._indent_more(inner))
             else:
                 inner = "%s%s.bind fun (%s : %s) =>\n%s" % (self.ind(d), self.atom(item[2]), item[1], lean_ty(item[3]),
                                                              self._indent_more(inner))
@@ -1979,6 +1997,13 @@ class Translator:
             if i + 1 != len(stmts) or tail is not None:
                 raise Unsupported("code after `return`")
             return self.leaf(s.e, env, d)
+        if s.kind == "exprstmt" and s.e.kind == "call" and self._helper(s.e) is not None:
+            def _unit():
+                v, _t = self.inline_helper(self._helper(s.e), s.e, env)
+                return ""
+            self.option_mode = True
+            _lines, pre = self.collect(_unit)
+            return self.wrap(pre, rest(env), d)
         if s.kind == "exprstmt":
             e = s.e
             if e.kind == "macro":
@@ -3218,10 +3243,98 @@ class Translator:
         out = tmpl.format(*args)
         return (out if out.startswith("(") else "(" + out + ")"), F
 
+    def _helper(self, e):
+        """the private function of the same file a call `Self::h(..)` / `h(..)` refers to, if it is to be inlined"""
+        o = self.o
+        if not (o.mut and o.inline_helpers) or "::".join(e.path) in o.fns or e.path[-1] in o.fns:
+            return None
+        if len(e.path) == 2 and e.path[0] in ("Self", self.fn.impl or "\0"):
+            cands = [f for f in self.src.fns if f.name == e.path[1] and f.impl == self.fn.impl and f.mod is None and f.macro is None]
+        elif len(e.path) == 1:
+            cands = [f for f in self.src.fns if f.name == e.path[0] and f.impl is None and f.trait is None and f.mod is None
+                     and f.macro is None]
+        else:
+            return None
+        if len(cands) != 1 or cands[0] is self.fn:
+            return None
+        f = cands[0]
+        T = self.src.toks
+        k = f.params[0] - 2                       # `fn name (`: look backwards for `pub`
+        while k >= 0 and T[k].s not in (";", "}", "{", "]"):
+            if T[k].s == "pub":
+                return None                       # only PRIVATE helpers are inlined (public functions have their own tie)
+            k -= 1
+        return f
+
+    def inline_helper(self, f, e, env):
+        """-> (value text, type) or (None, None) for a unit helper; the helper's `assert!` / `if c { panic!() }` are registered as
+        guards of the calling statement, its immutable `let`s are substituted"""
+        if getattr(self, "inline_depth", 0) > 4:
+            raise Unsupported("helper calls nested too deeply")
+        T, mt = self.src.toks, self.src.mt
+        segs, i = [], f.params[0]
+        while i < f.params[1]:
+            j, depth = i, 0
+            while j < f.params[1] and not (T[j].s == "," and depth == 0):
+                if T[j].s in ("(", "[", "{"):
+                    j = mt[j]
+                elif T[j].s == "<":
+                    depth += 1
+                elif T[j].s == ">":
+                    depth -= 1
+                j += 1
+            segs.append([t.s for t in T[i:j]])
+            i = j + 1
+        if any("self" in sg and ":" not in sg for sg in segs):
+            raise Unsupported("helper `%s` takes `self`" % f.name)
+        if len(segs) != len(e.args):
+            raise Unsupported("helper `%s`: arity" % f.name)
+        henv = {k_: v_ for k_, v_ in env.items() if k_.startswith("self.")}
+        for sg, a in zip(segs, e.args):
+            if ":" not in sg or sg.index(":") != 1:
+                raise Unsupported("helper `%s`: parameter pattern" % f.name)
+            v, ty = self.expr(a, env)
+            want = self.ty2("".join(sg[2:]))
+            if want is None or not compat(ty, want):
+                raise Unsupported("helper `%s`: argument of type %s for `%s`" % (f.name, ty, "".join(sg[2:])))
+            henv[sg[0]] = (self.atom(v), want)
+            self._declare(sg[0], henv, False)
+        body = Parser(self.src, *f.body).block_body()
+        self.inline_depth = getattr(self, "inline_depth", 0) + 1
+        try:
+            for st in body.stmts:
+                if st.kind == "exprstmt" and st.e.kind == "macro" and st.e.name in ("assert", "assert_eq"):
+                    p = Parser(self.src, *st.e.rng)
+                    c = p.expr()
+                    if st.e.name == "assert_eq":
+                        p.eat(",")
+                        c = N("bin", op="==", l=c, r=p.expr())
+                    self.add_pre(("guard", self.cond(c, henv)), "`assert!` of the helper `%s`" % f.name)
+                elif st.kind == "exprstmt" and st.e.kind == "if" and st.e.els is None and self._diverges(st.e.then) \
+                        and not self._has_return(st.e.then):
+                    self.add_pre(("panic_if", self.cond(st.e.c, henv)), "`panic!` of the helper `%s`" % f.name)
+                elif st.kind == "let" and not st.mut and isinstance(st.pat, str):
+                    v, ty = self.expr(st.e, henv)
+                    henv[st.pat] = (self.atom(v), ty)
+                    self._declare(st.pat, henv, False)
+                else:
+                    raise Unsupported("helper `%s`: statement outside the inlined subset (%s)" % (f.name, st.kind))
+            if body.tail is None:
+                return None, None
+            return self.expr(body.tail, henv)
+        finally:
+            self.inline_depth -= 1
+
     def call(self, e, env):
         o = self.o
         key = "::".join(e.path)
         name = e.path[-1]
+        hf = self._helper(e)
+        if hf is not None:
+            v, ty = self.inline_helper(hf, e, env)
+            if v is None:
+                raise Unsupported("helper `%s` has no value" % hf.name)
+            return v, ty
         if o.vectors and key not in o.fns:
             vals = [self.expr(a, env) for a in e.args]
             if key == "Vector::from" and len(vals) == 1 and vals[0][1] == V:
@@ -3950,6 +4063,14 @@ impl Bt { pub fn set_alpha(&mut self, alpha: f64) -> &mut Self { if alpha <= 0. 
     fn update(&mut self, params: &[f64]) { self.set_alpha(params[0]).set_b(params[1] as usize as f64); }
     fn reset(&mut self, params: &[f64]) { *self = Self::new(params[0]); }
     fn pick(&self) -> f64 { if self.alpha < 10. { 1. } else { 2. } } }
+pub struct Nm { mu: f64, sigma: f64 }
+impl Nm { pub fn new(mu: f64, sigma: f64) -> Self { let sigma = Self::checked(sigma); Self::must(mu); Self { mu, sigma } }
+    fn checked(s: f64) -> f64 { if s < 0. { panic!("neg") } s }
+    fn must(m: f64) { assert!(m > 0., "pos"); }
+    fn bad(k: f64) -> bool { k <= 0. }
+    pub fn set_sigma(&mut self, sigma: f64) -> &mut Self { if Self::bad(sigma) { panic!("no") } self.sigma = Self::checked(sigma); self }
+    pub fn pubhelper(x: f64) -> f64 { x }
+    pub fn uses_pub(x: f64) -> f64 { Self::pubhelper(x) } }
 pub struct Ar { coeffs: Vec<f64>, c: f64 }
 impl Ar { fn centred(&self, d: &[f64]) -> f64 { let n = d.len(); let k = self.coeffs.len(); if n >= k { dot(&d[n - k..], &self.coeffs) } else { dot(d, &self.coeffs[k - n..]) } }
     fn one(&self, d: &[f64]) -> f64 { let s = d.len().saturating_sub(self.coeffs.len()); self.centred(&d[s..]) + self.c }
@@ -4205,6 +4326,13 @@ def _selftest():
           type_alias={"&mutSelf": "Vec<f64>"}, self_methods={"store": ("{0}", "vec", False)}, fns={"inv": "INV"}, fn_ret={"inv": "vec"},
           opt_fns=("inv",), mut=True, self_fields=["coeffs", "c"])
     refuse("Ar::refit", "`&mut self`", mut=True, self_fields=["coeffs", "c"])
+    # private helpers of the same file are inlined: their `panic!` / `assert!` become guards of the calling statement
+    NM = dict(adts={"Nm": "NM"}, struct_types={"Nm": [("mu", "f64"), ("sigma", "f64")]}, struct_mk={"Nm": "MK"})
+    check("Nm::new", "if sigma < 0 then none else let sigma : α := sigma if mu > 0 then some (MK mu sigma) else none", mut=True, **NM)
+    check("Nm::set_sigma", "if sigma ≤ 0 then (d, true) else if sigma < 0 then (d, true) else let d := { d with sigma := sigma } (d, false)",
+          state_fn=True, **NM)
+    refuse("Nm::uses_pub", "call of `Self::pubhelper`", mut=True, **NM)          # public functions are not inlined
+    refuse("Nm::new", "call of `Self::checked`", mut=True, inline_helpers=False, **NM)
     # struct literals (fields in declaration order, nested constructor bound first); a sub-sampler draw as a parameter
     check("Ex::new", "if lambda ≤ 0 then none else (UN 0 1).bind fun (r1 : U') => some (MK lambda r1)", mut=True,
           adts={"Ex": "E'", "Un": "U'"}, struct_types={"Ex": [("lambda", "f64"), ("rng", ("adt", "Un", "U'"))]},
